@@ -214,6 +214,41 @@ fn wide_bits_cases(deadline: &Deadline) -> Stats {
     })
 }
 
+/// Rows are evaluated at the moment they are reached: a device that moves on its own between the
+/// rows (every answer differs from the one before) against loop / repeat / while bodies whose rows
+/// read it without mentioning a counter or a function.
+fn moving_device_cases(deadline: &Deadline) -> Stats {
+    let sigs = vec![Sig::inp("P0", 16, 0), Sig::inp("P1", 16, 0), Sig::out("Q", 16), Sig::out("R", 16)];
+    let l = |n: i64| Entry::Lit(n, Radix::Dec);
+    let p = |e: Expr| Entry::Paren(e);
+    let q = || name("Q");
+    let progs: Vec<(&str, Vec<Stmt>)> = vec![
+        ("repeat(4) (Q) (Q+1)", vec![Stmt::Repeat(lit(4), vec![p(q()), p(bin(BinOp::Add, q(), lit(1))), Entry::X, Entry::X])]),
+        ("one-row loop reading Q", vec![Stmt::Loop("i".into(), lit(3), vec![Stmt::Row(vec![p(q()), l(1), Entry::X, Entry::X])]), Stmt::Row(vec![p(q()), l(2), Entry::X, Entry::X])]),
+        ("one-row loop inside a loop", vec![Stmt::Loop("j".into(), lit(2), vec![Stmt::Loop("i".into(), lit(2), vec![Stmt::Row(vec![p(bin(BinOp::Mul, q(), name("R"))), l(3), Entry::X, Entry::X])])])]),
+        ("while polling R, one row", vec![Stmt::While(bin(BinOp::Lt, name("R"), lit(4)), vec![Stmt::Row(vec![p(q()), p(name("R")), Entry::X, Entry::X])]), Stmt::Row(vec![l(9), p(q()), Entry::X, Entry::X])]),
+        ("repeat with a clock row reading Q", vec![Stmt::Repeat(lit(3), vec![p(q()), Entry::X, Entry::X, Entry::X]), Stmt::Repeat(lit(2), vec![Entry::C, p(q()), Entry::X, Entry::X])]),
+        ("let outside, row reads variable and device", vec![Stmt::Let("a".into(), lit(7)), Stmt::Repeat(lit(3), vec![p(bin(BinOp::Add, name("a"), q())), p(name("a")), Entry::X, Entry::X])]),
+    ];
+    par_range("a device that answers differently at every call x loop / repeat / while bodies of one row that read it", progs.len() as u64 * 2, deadline, |idx, st| {
+        let (what, body) = &progs[(idx / 2) as usize];
+        let ov = idx % 2 == 0;
+        let prog = Program { header: vec!["P0".into(), "P1".into(), "Q".into(), "R".into()], body: body.clone() };
+        let text = text(&prog);
+        let script: Vec<Step> = (0..30i64).map(|j| Step::Ans(vec![("Q".into(), V::Num(10 + 3 * j)), ("R".into(), V::Num(j))])).collect();
+        let r = ref_run_fuel(&prog, &sigs, &script, 10_000, 40);
+        assert!(r.end == RefEnd::Done, "moving device case '{what}' does not finish in the reference: {:?}", r.end);
+        st.evals += 1;
+        st.nontrivial += 1;
+        st.witness("device_that_moves_between_the_rows");
+        let opts = RunOpts::new(r.items.len() + 1);
+        let obs = run_dynamic(&text, &sigs, ov, &script, &opts);
+        if let Some((k, m)) = run_mismatch(&r, &obs, Proj::ROWS, None) {
+            st.violation(&format!("device moving between the rows: {}", classify(&m)), (13 << 56) + idx, format!("{what}\nprogram:\n{text}the device answers Q = 10, 13, 16, ... and R = 0, 1, 2, ... call by call\nfirst difference at {m} (item {k})"), || dyn_replay(&text, &sigs, ov, &script, &opts, ref_items_brief(&r), &obs, &m));
+        }
+    })
+}
+
 /// The real test programs of the repository's .dig fixtures: parsed by the reference grammar,
 /// run by the reference interpreter, compared row by row with the subject. Sources are cut out
 /// of the XML by a plain text scan (independent of the subject's .dig loader); the signal list
@@ -411,6 +446,7 @@ pub fn run(id: &'static str, tier: Tier, seed: u64) -> i32 {
         total.merge(fixtures(&deadline));
         total.merge(large_cases(&deadline));
         total.merge(wide_bits_cases(&deadline));
+        total.merge(moving_device_cases(&deadline));
     }
     if c18 {
         // far beyond the enumerated scope: 30 variables, six of them shadowed at two levels
